@@ -366,4 +366,4 @@ def run(cx, out):
     out.rule('R05.1', 'derived encoders (struct/enum layouts, index bytes) equal the layout declared by the definition (derive corpus of C05)')
     # premises: the derived encoders; "the produced bytes" presupposes that every entry point and every output sink
     # produces the same bytes (C07 R07.1 entry points agree, R07.3 sinks write everything they are given)
-    shared.premises(cx, out, {'c05': {'R05.1'}, 'c07': {'R07.1', 'R07.3'}})
+    shared.premises(cx, out, {'c05': {'R05.1'}, 'c07': {'R07.1', 'R07.3', 'R07.4'}})
